@@ -51,6 +51,17 @@ var natives = []native{
 		return schema.NewMapSchema(schema.NewStringSchema(nil, nil, nil), schema.NewIntSchema(nil, nil, nil), nil, nil)
 	}, map[string]int64{"k": 1}},
 	{"any", anyType, func() schema.Type { return schema.NewAnySchema() }, any("dynamic")},
+	// types that differ from the above only in one component (key type, item type)
+	{"map<int,int>", reflect.TypeOf(map[int64]int64{}), func() schema.Type {
+		return schema.NewMapSchema(schema.NewIntSchema(nil, nil, nil), schema.NewIntSchema(nil, nil, nil), nil, nil)
+	}, map[int64]int64{1: 1}},
+	{"list<int>", reflect.TypeOf([]int64{}), func() schema.Type { return schema.NewListSchema(schema.NewIntSchema(nil, nil, nil), nil, nil) }, []int64{1, 2}},
+	{"list<map<string,int>>", reflect.TypeOf([]map[string]int64{}), func() schema.Type {
+		return schema.NewListSchema(schema.NewMapSchema(schema.NewStringSchema(nil, nil, nil), schema.NewIntSchema(nil, nil, nil), nil, nil), nil, nil)
+	}, []map[string]int64{{"k": 1}}},
+	{"list<map<int,int>>", reflect.TypeOf([]map[int64]int64{}), func() schema.Type {
+		return schema.NewListSchema(schema.NewMapSchema(schema.NewIntSchema(nil, nil, nil), schema.NewIntSchema(nil, nil, nil), nil, nil), nil, nil)
+	}, []map[int64]int64{{1: 1}}},
 }
 
 // paramLists: 0..2 parameters over all 7 natives, 3 parameters over the first 3
@@ -175,10 +186,12 @@ func (d decl) String() string {
 
 func inputDecls(params []int) [][]int {
 	out := [][]int{append([]int{}, params...)}
-	for i := range params { // one position changed
-		alt := append([]int{}, params...)
-		alt[i] = (params[i] + 1) % len(natives)
-		out = append(out, alt)
+	for i := range params { // one position changed, to every other native
+		for d := 1; d < len(natives); d++ {
+			alt := append([]int{}, params...)
+			alt[i] = (params[i] + d) % len(natives)
+			out = append(out, alt)
+		}
 	}
 	if len(params) > 0 {
 		out = append(out, append([]int{}, params[:len(params)-1]...))
@@ -412,7 +425,7 @@ func main() {
 			res := run("quick", b, 0, time.Time{})
 			return res.Findings
 		},
-		Rule: "handlers built with reflect.MakeFunc for every parameter list of 0-2 parameters over 7 native types (int64, string, float64, bool, []string, map[string]int64, any) and 3 parameters over 3 types x 10 result shapes (none, V, error, (V,error), (V,V), (V,V,error), (error,V), (V,bool), (V, int type named 'error'), (int type named 'error')) x declarations (matching inputs, each single-position mismatch, one fewer, one more; output in {nil, each of the 7}; outputsError in {false,true}) for NewCallableFunction, and the inputs for NewDynamicCallableFunction; every accepted function is called with 0..4 arguments, and once with a handler returning a non-nil error",
+		Rule: "handlers built with reflect.MakeFunc for every parameter list of 0-2 parameters over 11 native types (int64, string, float64, bool, []string, map[string]int64, any, map[int64]int64, []int64, []map[string]int64, []map[int64]int64) and 3 parameters over 3 types x 10 result shapes (none, V, error, (V,error), (V,V), (V,V,error), (error,V), (V,bool), (V, int type named 'error'), (int type named 'error')) x declarations (matching inputs, every single-position mismatch, one fewer, one more; output in {nil, each of the 7}; outputsError in {false,true}) for NewCallableFunction, and the inputs for NewDynamicCallableFunction; every accepted function is called with 0..4 arguments, and once with a handler returning a non-nil error",
 		Assumptions: []string{
 			"reference predicate: parameter and result types equal the schemas' reflected types; an error result is the predeclared interface type error",
 			"interface types other than `error` that embed error are outside the alphabet",
